@@ -403,3 +403,70 @@ _atomic_rename""")], 'detect'),
             raise  # could not save destination file""")], 'detect'),
     'umask-ignored': ([(FU, "                do_chmod = False  # respect the umask", "                do_chmod = True  # respect the umask")], 'detect'),
 }
+
+IT = 'boltons/iterutils.py'
+MUTANTS['C15'] = {
+    'cap-removed': ([(IT, "        if cur > stop:\n            cur = stop\n    return", "        if cur > stop * factor:\n            cur = stop\n    return")], 'detect'),
+    'jitter-sign-flipped': ([(IT, "cur_ret = cur - (cur * jitter * random.random())", "cur_ret = cur + (cur * jitter * random.random())")], 'detect'),
+    'jitter-applied-to-cur': ([(IT, "cur_ret = cur - (cur * jitter * random.random())", "cur = cur_ret = cur - (cur * jitter * random.random() * 0.01)")], 'detect'),
+    'count-off-by-one': ([(IT, "    while count == 'repeat' or i < count:", "    while count == 'repeat' or i <= count - (1 if reach_stop else 0):")], 'detect'),
+    'jitter-range-check-loose': ([(IT, "if not (-1.0 <= jitter <= 1.0):", "if not (-1.0 <= jitter <= 1.5):")], 'detect'),
+    'jitter-uses-two-draws': ([(IT, "cur_ret = cur - (cur * jitter * random.random())", "cur_ret = cur - (cur * jitter * (random.random() + random.random()))")], 'detect'),
+    'start-zero-follows-one-uncapped': ([(IT, "        if cur > stop:\n            cur = stop\n    return", "        if cur > stop and cur != 1:\n            cur = stop\n    return")], 'detect'),
+    'revert-rounding-fix': ([(IT, "        if reach_stop and i == count and cur < stop:\n            count += 1", "        if False:\n            count += 1")], 'detect'),
+    'validation-after-first-yield': ([(IT, """    if stop < start:
+        raise ValueError('expected stop >= start, not %r' % stop)""", """    if stop < start:
+        yield start
+        raise ValueError('expected stop >= start, not %r' % stop)""")], 'detect'),
+    'jitter-extreme-draw-exceeds': ([(IT, "cur_ret = cur - (cur * jitter * random.random())", "cur_ret = cur - (cur * jitter * min(1.0, random.random() * 1.0000001))")], 'benign'),   # the bound is inclusive
+}
+
+IO = 'boltons/ioutils.py'
+MUTANTS['C18'] = {
+    'bytes-rollover-loses-position': ([(IO, """            tmp = TemporaryFile(dir=self._dir)
+            pos = self.buffer.tell()
+            tmp.write(self.buffer.getvalue())
+            tmp.seek(pos)""", """            tmp = TemporaryFile(dir=self._dir)
+            pos = self.buffer.tell()
+            tmp.write(self.buffer.getvalue())
+            tmp.seek(0, os.SEEK_END)""")], 'detect'),
+    'bytes-rollover-loses-content': ([(IO, """            tmp = TemporaryFile(dir=self._dir)
+            pos = self.buffer.tell()
+            tmp.write(self.buffer.getvalue())""", """            tmp = TemporaryFile(dir=self._dir)
+            pos = self.buffer.tell()
+            tmp.write(self.buffer.getvalue()[:pos])""")], 'detect'),
+    'bytes-len-without-flush': ([(IO, """        if self._rolled:
+            self.seek(0)
+            val = os.fstat(self.fileno()).st_size""", """        if self._rolled:
+            val = os.fstat(self.fileno()).st_size""")], 'detect'),
+    'text-readline-no-tell-update': ([(IO, """        ret = ''.join(parts)
+        self._tell = self.tell() + len(ret)
+        return ret""", """        ret = ''.join(parts)
+        if len(ret) < 6:
+            self._tell = self.tell() + len(ret)
+        return ret""")], 'detect'),
+    'rollover-threshold-gt': ([(IO, "        if self.tell() + len(s) >= self._max_size:\n            self.rollover()\n        self.buffer.write(s)", "        if self.tell() + len(s) > self._max_size:\n            self.rollover()\n        self.buffer.write(s)")], 'benign'),
+    'mfr-index-advances-on-exact-read': ([(IO, "            if got < amt:\n                self._index += 1", "            if got <= amt:\n                self._index += 1")], 'detect'),
+    'text-rollover-byte-position': ([(IO, """            pos = self.tell()
+            tmp.write(self.buffer.getvalue())
+            self.buffer.close()
+            self._buffer = tmp
+            self.seek(pos)""", """            pos = self.buffer.tell()
+            tmp.write(self.buffer.getvalue())
+            tmp.seek(pos)
+            self.buffer.close()
+            self._buffer = tmp""")], 'detect'),
+    'text-len-no-restore': ([(IO, "        self.seek(pos)\n        return total", "        self.buffer.seek(0)\n        self._traverse_codepoints(0, pos)\n        return total")], 'detect'),
+    'text-seek-chunk-boundary': ([(IO, "            if current_position + READ_CHUNK_SIZE > dest:", "            if current_position + READ_CHUNK_SIZE >= dest + 2:")], 'detect'),
+    'mfr-seek-no-index-reset': ([(IO, "            f.seek(0)\n        self._index = 0", "            f.seek(0)")], 'detect'),
+    'text-write-counts-bytes': ([(IO, "        self._tell = current_pos + len(s)", "        self._tell = current_pos + (len(s) if self._rolled or len(s) < 4 else len(s.encode('utf-8')))")], 'detect'),
+    'text-readlines-splitlines': ([(IO, """        ret = []
+        while True:
+            line = self.readline()
+            if not line:
+                break
+            ret.append(line)
+        return ret""", """        ret = self.read().splitlines(True)
+        return ret""")], 'detect'),
+    'bytes-readline-length-zero': ([(IO, "        if length:\n            return self.buffer.readline(length)", "        if length is not None:\n            return self.buffer.readline(length)")], 'benign'),
+}
